@@ -19,7 +19,9 @@ LEVEL_TEXT = ('Decides from the source: both input implementations split lines w
               'is built from the invoked rule\'s name, the key position taken after whitespace skipping, the position at rule '
               'exit, and lineat() of those same two offsets; the line/column/line-text arithmetic of both inputs is decided '
               'exhaustively for all texts over {letter, LF, CR} up to length 4 (thorough: 6) and all offsets inside them. Longer texts, '
-              'other line-boundary characters and the offset == len(text) are not decided.')
+              'other line-boundary characters and the line/column values reported at offset == len(text) are not decided.')
+TECHNIQUE += "; origin tracing of every ParseInfo field to the invoked rule's RuleInfo and key; edge-position interpretation of all input implementations at len(text) and on the empty text"
+LEVEL_TEXT += " Added clauses: the rule name in ParseInfo is the invoked rule's (not the top of the call stack); line queries at the end of text and on the empty text do not index out of range."
 LEVEL_NOTE = 'Trusted: str.splitlines(True) ends lines at \\n, \\r and \\r\\n (and keeps the terminators).'
 EXPLANATION = ('Static analysis of /repo sources, TatSu not imported. split_block_lines is resolved through helper functions to '
                'its splitting primitive; regex literals are compiled to NFAs by the checker and compared by language inclusion.')
